@@ -238,6 +238,9 @@ def match_known(pid, text, known):
         for pat in k.get("match", []):
             if re.search(pat, text):
                 return k
+        pred = k.get("predicate")
+        if pred and PREDICATES[pred](text):
+            return k
     return None
 
 
@@ -253,6 +256,80 @@ def c11_aux():
         for e in o["entries"]:
             f.write("%d %d %s\n" % (kinds[e["kind"]], 1 if e["accepted"] else 0, e["name"]))
     return path, o
+
+
+def casefold_aux():
+    cf = json.load(open(os.path.join(ROOT, "oracle", "casefold17.json")))
+    f8 = json.load(open(os.path.join(ROOT, "oracle", "f8_sets.json")))
+    path = os.path.join(BUILD, "tmp", "casefold.txt")
+    os.makedirs(os.path.dirname(path), exist_ok=True)
+    with open(path, "w") as f:
+        for c, r in cf["scf"]:
+            f.write("scf %x %x\n" % (c, r))
+        for c, r in cf["legacy"]:
+            f.write("legacy %x %x\n" % (c, r))
+        for c in f8["D"]:
+            f.write("d8 %x\n" % c)
+        for c in f8["X8"]:
+            f.write("x8 %x\n" % c)
+    return path
+
+
+_F8 = None
+
+
+def f8_chars():
+    global _F8
+    if _F8 is None:
+        f8 = json.load(open(os.path.join(ROOT, "oracle", "f8_sets.json")))
+        _F8 = set(f8["D"]) | set(f8["X8"])
+    return _F8
+
+
+def legacy_icase_context(flags, ast_text=""):
+    """i without u/v at top level, or a modifier group switching i on in a non-unicode pattern."""
+    if "u" in flags or "v" in flags:
+        return False
+    if "i" in flags:
+        return True
+    return bool(re.search(r"\(mod [a-z]*i[a-z]* ", ast_text))
+
+
+def f8_predicate(text):
+    """Class predicate of known finding F8: legacy (non-u/v) case-insensitive matching AND a code point
+    of the committed sets D ∪ X8 (oracle/f8_sets.json) occurs in the pattern or the haystack."""
+    bad = f8_chars()
+    m = re.search(r"F8CTX flags=(\S+) cps=(\S+)", text)
+    if m:
+        if not legacy_icase_context(m.group(1)):
+            return False
+        if "negesc=1" in text:
+            return True
+        cps = [int(x, 16) for x in m.group(2).split(".")] if m.group(2) != "-" else []
+        return any(c in bad for c in cps)
+    m = re.match(r"(esfind|esiter) (\S+) (\S+) (\S+) (\d+)", text)
+    if m:
+        flags, ast, hay = m.group(2), m.group(3).replace("~", " "), m.group(4)
+        if not legacy_icase_context(flags, ast):
+            return False
+        # a negated class escape inside a bracket: its raw set contains every non-ASCII case partner
+        if re.search(r"\(v?class [01][^)]*\(esc [WDS]\)", ast):
+            return True
+        cps = [int(x, 16) for x in hay.split(".")] if hay != "-" else []
+        cps += [int(x, 16) for x in re.findall(r"\((?:char|c) ([0-9a-f]+)\)", ast)]
+        for a, b in re.findall(r"\(r ([0-9a-f]+) ([0-9a-f]+)\)", ast):
+            lo, hi = int(a, 16), int(b, 16)
+            if any(lo <= c <= hi for c in bad):
+                return True
+        for q in re.findall(r"\(q ([^)]*)\)", ast):
+            for sname in q.split(" "):
+                if sname and sname != "-":
+                    cps += [int(x, 16) for x in sname.split(".")]
+        return any(c in bad for c in cps)
+    return False
+
+
+PREDICATES = {"legacy_icase_x8": f8_predicate}
 
 
 def c11_oracle_compare(outdir, oracle):
@@ -279,7 +356,29 @@ def c11_oracle_compare(outdir, oracle):
     return viol
 
 
+ENGINE_RULE = ("(pattern AST from the generator, flags, haystack sampled from the pattern / mutated / random, start on a char boundary); "
+               "non-trivial = the search finds a match; distinct by (pattern, flags, haystack, start)")
+
 PLANS = {
+    "C10": dict(proofs=["Proofs.C10"], runs=[("c10", dict(quick=0, thorough=0))],
+                rule="every code point with a non-trivial case class in either source (quick: all below U+0250 and a quarter of the rest) x {i, iu, iv} x {literal, [c], [^c], (c)\\1} x every member of both classes; \\w \\W [\\w] [\\W] \\b for every such code point; non-trivial = c ≠ d equivalent",
+                technique="Lean 4 kernel evaluation over FOLDS / TO_UPPERCASE regenerated from the source vs ICU 78.2 snapshot, lifted to all code points; engine-level sweep of the same relation"),
+    "C01": dict(proofs=["Proofs.C01"], runs=[("engine", dict(quick=30000, thorough=1500000), ["--focus", "C01"])],
+                rule=ENGINE_RULE,
+                technique="Lean 4 ES2025 specification (laws proved) as executable oracle: spec-vs-implementation differential on generated ASTs"),
+    "C04": dict(proofs=["Proofs.C04"], runs=[("engine", dict(quick=30000, thorough=1500000), ["--focus", "C04"])],
+                rule=ENGINE_RULE,
+                technique="Lean 4 proof (prefilter transparency for any admissible scan; byte-scan and lead-byte lemmas) + executor tie + predicate-vs-Arbitrary differential"),
+    "C02": dict(proofs=[], runs=[("engine", dict(quick=30000, thorough=1500000), ["--focus", "C02"])],
+                rule=ENGINE_RULE, technique="(proofs pending)"),
+    "C03": dict(proofs=[], runs=[("engine", dict(quick=30000, thorough=1500000), ["--focus", "C03"])],
+                rule=ENGINE_RULE, technique="(proofs pending)"),
+    "C05": dict(proofs=[], runs=[("engine", dict(quick=30000, thorough=1500000), ["--focus", "C05"])],
+                rule=ENGINE_RULE, technique="(proofs pending)"),
+    "C06": dict(proofs=[], runs=[("engine", dict(quick=30000, thorough=1500000), ["--focus", "C06"])],
+                rule=ENGINE_RULE, technique="(proofs pending)"),
+    "C13": dict(proofs=[], runs=[("engine", dict(quick=30000, thorough=1500000), ["--focus", "C13"])],
+                rule=ENGINE_RULE, technique="(proofs pending)"),
     "C19": dict(proofs=["Proofs.C19"], runs=[("c19", dict(quick=4000, thorough=100000))],
                 rule="(regex, multiset of (haystack,start) queries): sequential results vs 3 random orders on one thread vs 16 threads sharing &Regex and a clone, both executors; non-trivial = query has a match",
                 technique="Lean 4 proof (schedule-independence of per-thread executor state; generated type inventory has no interior mutability) + rustc Send/Sync assertion + thread stress"),
@@ -360,7 +459,10 @@ def check(pid, tier, seed):
     ok_build, errs, out = lake_build(plan["proofs"] + ["driver"])
     if not ok_build:
         broken.append({"tie": "lake build " + " ".join(plan["proofs"]), "detail": "\n".join(errs[:20]) or out[-2000:]})
-    ok_a, problems, theorems, axioms = audit(plan["proofs"]) if ok_build else (False, ["build failed"], [], [])
+    if not plan["proofs"]:
+        ok_a, problems, theorems, axioms = True, [], [], []
+    else:
+        ok_a, problems, theorems, axioms = audit(plan["proofs"]) if ok_build else (False, ["build failed"], [], [])
     stats["theorems"] = theorems
     stats["axioms"] = axioms
     stats["obligations"] = max(len(theorems), 1)
@@ -384,6 +486,8 @@ def check(pid, tier, seed):
             if cmd == "c11":
                 aux, oracle = c11_aux()
                 args += ["--aux", aux]
+            if cmd in ("c18", "c10"):
+                args += ["--aux", casefold_aux()]
             rc, hout, rep = run_harness(binary, cmd, outdir, args)
             if rc != 0 or rep is None:
                 broken.append({"tie": "harness run " + cmd, "detail": hout[-3000:]})
@@ -432,7 +536,7 @@ def check(pid, tier, seed):
     seen_known = set()
     fresh = []
     for v in violations:
-        k = match_known(pid, v["what"] + " || " + v["case"], known)
+        k = match_known(pid, v["case"] + " || " + v["what"], known)
         if k:
             if k["id"] not in seen_known:
                 seen_known.add(k["id"])
